@@ -292,7 +292,8 @@ class Validator:
             raise Bad("PT_TLS-missing", f"TLS sections {[s.name for s in tsecs]} but no PT_TLS")
         if tls is not None:
             if not tsecs:
-                if tls.memsz:
+                # (lld emits a PT_TLS with rounded-up memsz for empty TLS sections)
+                if tls.memsz and not any(s.flags & E.SHF_TLS for s in e.sections):
                     raise Bad("PT_TLS-without-section", f"PT_TLS {tls} but no TLS section")
             else:
                 lo = min(s.addr for s in tsecs)
@@ -666,8 +667,12 @@ class C04(Check):
         if case["now"]:
             a += ["-z", "now"]
         if case["use_section_start"] and not script:
+            used = set()
             for idx, addr in case["section_start"]:
                 s = secs[idx % len(secs)]
+                if addr in used or s["out"] in used:
+                    continue  # two sections at one address is not a meaningful request (see report)
+                used.update((addr, s["out"]))
                 if s["flags"] in ("tdata", "tbss", "note") or s["out"] in (".rodata", ".data", ".text", ".bss", ".data.rel.ro"):
                     continue
                 a.append(f"--section-start={s['out']}={addr:#x}")
